@@ -82,7 +82,10 @@ Below(a, b) == Len(a) < Len(b) /\ SubSeq(b, 1, Len(a) + 1) = a \o "/"
 PathClash(n) == n \in fsdirs \/ \E m \in DOMAIN refs : Below(n, m) \/ Below(m, n)
 DirsOf(r) == {m \in Names : \E n \in DOMAIN r : Below(m, n)}
 FsStep(o) ==
-  CASE o[1] \in {"set", "setlog", "del", "get", "log"} -> IF PathClash(o[2]) THEN 0 ELSE 2
+  CASE o[1] \in {"set", "setlog", "get", "log"} -> IF PathClash(o[2]) THEN 0 ELSE 2
+    \* deleting a name that is no ref but a path prefix of refs (or lies below one): the file store is free in what it
+    \* answers, not in what it does - every other name and log stays (state judged, result not)
+    [] o[1] = "del" -> IF PathClash(o[2]) THEN 1 ELSE 2
     [] o[1] \in {"ren", "copy"} /\ (PathClash(o[2]) \/ PathClash(o[3])) -> 0
     [] o[1] = "ren"    -> IF o[2] \notin DOMAIN refs THEN 2
                           ELSE IF o[3] \in DOMAIN refs \/ PathClash(o[3]) THEN 0 ELSE 2
